@@ -253,15 +253,17 @@ def run(tier, seed):
     for stats, viols in common.pmap(job_inh, jobs, chunksize=4):
         res.merge_counts(stats)
         res.add_violations(viols)
-    key = (1, 3, 2, False) if tier == 'quick' else (2, 3, 2, False)
-    exprs, models = _partb(*key)
-    nch = (len(exprs) + 119) // 120
-    per = max(1, len(models) // 48 + 1)
-    jobs2 = common.rotate([(key, ci, lo, min(lo + per, len(models)))
-                           for ci in range(nch) for lo in range(0, len(models), per)], seed)
-    for stats, viols in common.pmap(job_sem, jobs2):
-        res.merge_counts(stats)
-        res.add_violations(viols)
+    # (the full product ops<=2 x N<=3 is 13 million graphs: the thorough tier keeps N<=3 for one operator and
+    # explores two operators over every model with N<=2)
+    for key in ([(1, 3, 2, False)] if tier == 'quick' else [(1, 3, 2, False), (2, 2, 2, False)]):
+        exprs, models = _partb(*key)
+        nch = (len(exprs) + 119) // 120
+        per = max(1, len(models) // 48 + 1)
+        jobs2 = common.rotate([(key, ci, lo, min(lo + per, len(models)))
+                               for ci in range(nch) for lo in range(0, len(models), per)], seed)
+        for stats, viols in common.pmap(job_sem, jobs2):
+            res.merge_counts(stats)
+            res.add_violations(viols)
     res.bounds = {'inh_languages': len(jobs), 'partB_expressions': len(exprs), 'partB_models': len(models),
                   'partB_bound': {'ops<=': key[0], 'N<=': key[1], 'L<=': key[2], 'two_member_sides': key[3]}}
     res.sample({'inh_shape': shapes[-1], 'kinds': [k for k, _ in KINDS], 'naming_model': _models_naming()[-1]})
